@@ -403,6 +403,7 @@ def rule_secrecy(ctx, res):
 
 
 def run(ctx, res):
+    common.rule_no_addr_canonicalisation(ctx, res)
     d = common.Dispatcher(ctx)
     res.touch(d.body)
     common.rule_closed_world(ctx, res)
